@@ -1548,6 +1548,8 @@ def ucall_terms(name, vs):
 
 def call_ucall(interp, fn, args, kwargs, node):
     """user callback: uninterpreted function of its (lifted) arguments; deterministic; may raise"""
+    args = [to_seq(interp, a, 'list', node) if isinstance(a, (MapIter, SrcIter, ZipIter, ListIter, GenObj)) else a for a in args]
+    fn.last_args = args
     vs = [as_v(a if not isinstance(a, Instance) else instance_value(interp, a)) for a in args]
     if not vs:
         vs = [as_v(0)]
@@ -1906,7 +1908,7 @@ def _groupby(interp, args, kw, node):
     it = get_iter(interp, args[0], node)
     key = kw.get('key', args[1] if len(args) > 1 else None)
     if not is_concrete_iter(it):
-        raise Unsupported('groupby over an iterator of symbolic length (needs a group-level contract)')
+        return symbolic_groupby(interp, it, key, node)
     items = iter_concrete(interp, it)
     groups, cur, curk = [], None, None
     for x in items:
@@ -1917,6 +1919,37 @@ def _groupby(interp, args, kw, node):
             cur, curk = [x], k
             groups.append((k, cur))
     return ListIter([(k, ListIter(g)) for k, g in groups])
+
+
+grp_key = z3.Function('grp_key', V, V)        # the key object of a group (what the key function returned)
+grp_inner = z3.Function('grp_inner', V, V)    # its .inner (petl Comparable keys)
+grp_rows = z3.Function('grp_rows', V, V)      # the group's elements, as a sequence
+
+
+class GroupKey(Opaque):
+    def __init__(self, e):
+        Opaque.__init__(self, 'groupkey', 'k', {'inner': SCell(grp_inner(e))})
+        self.e = e
+
+    def as_v_term(self):
+        return grp_key(self.e)
+
+
+def symbolic_groupby(interp, it, key, node):
+    """itertools.groupby over an iterator of SYMBOLIC length, at group level (T2): some number G >= 0 of groups
+    (G >= 1 iff there is an element), each a non-empty run; group j is an opaque element e with key grp_key(e) and
+    element sequence grp_rows(e).  That the runs partition the input and are maximal is T2 itself (trusted)."""
+    n = z3.simplify(sym_remaining(it))
+    G = smt.fresh_int('G')
+    garr = smt.fresh_arr('groups')
+    interp.ctx.assume(z3.And(G >= 0, G <= n, (G >= 1) == (n >= 1)))
+    q = smt.fresh_int('q')
+    interp.ctx.facts.append(z3.ForAll([q], smt.seq_len(grp_rows(z3.Select(garr, q))) >= 1))
+    sym_exhaust(it)
+    gi = SrcIter(garr, G, 'groupby')
+    gi.group_source = it
+    gi.keyfn = key
+    return MapIter(gi, lambda e: (True, (GroupKey(e.t), get_iter(interp, view_seq(SCell(grp_rows(e.t))), node))))
 
 
 @_b('product')
